@@ -309,6 +309,35 @@ def trace_modules(G, S, out):
                     raise TraceError(f"SampleImage._matrix shape {tuple(mat.shape)}")
                 out.append(trlib.emit_match_def(f"gen_smat_{SH[a]}{'a' if ac else 'n'}_{D}", grid_inputs(tgt, "t") + grid_inputs(src, "s"),
                                                 [], mat[0], comment=f"SampleImage._matrix, axes={a}, target.align_corners={ac}, D={D}"))
+    # the same with the source grid omitted (source = target, the SAME object): Grid.transform takes its same-grid branch
+    # (axes -> cube axes of the target's flag).  A (D, D) result (linear map, as homogeneous_transform applies it) is emitted
+    # with a zero translation column.
+    for D in (2, 3):
+        for a in AXN:
+            for ac in (True, False):
+                tgt = mk_grid(Grid, D, p="t", align=ac)
+                m = object.__new__(S.SampleImage)
+                m._target, m._source, m._axes, m._align_centers = tgt, tgt, Axes(a.lower()), False
+                mat = m._matrix()
+                if tuple(mat.shape) == (1, D, D):
+                    arr = np.empty((D, D + 1), dtype=object)
+                    arr[:, :D] = mat.a[0]
+                    for i in range(D):
+                        arr[i, D] = E.const(0)
+                    mat0 = st.Tensor(arr, dtype=mat.dtype)
+                elif tuple(mat.shape) == (1, D, D + 1):
+                    mat0 = mat[0]
+                else:
+                    raise TraceError(f"SampleImage._matrix (own grid) shape {tuple(mat.shape)}")
+                out.append(trlib.emit_match_def(f"gen_smat_own_{SH[a]}{'a' if ac else 'n'}_{D}", grid_inputs(tgt, "t"),
+                                                [], mat0, comment=f"SampleImage._matrix, source omitted, axes={a}, target.align_corners={ac}, D={D}"))
+    arms = []
+    for D in (2, 3):
+        for a in AXN:
+            for ac in (True, False):
+                arms.append(f"  | {D}%nat, {a}, {'true' if ac else 'false'} => gen_smat_own_{SH[a]}{'a' if ac else 'n'}_{D} tn ts tc td")
+    out.append("Definition gen_smat_own (D : nat) (a : axes) (ac : bool) (tn ts tc : list K) (td : list (list K)) "
+               ": list (list K) :=\n  match D, a, ac with\n" + "\n".join(arms) + "\n  | _, _, _ => []\n  end.\n")
     arms = []
     for D in (2, 3):
         for a in AXN:
